@@ -1,0 +1,12 @@
+//go:build verif
+
+package thrift
+
+// Property lemmas: functions that are never called. Each exists so that the verifier proves a
+// composition of contracts (a round trip) as one more function under contract.
+
+// lemmaAppExRoundTrip: reading what FastWrite wrote gives back the message and the type id.
+func lemmaAppExRoundTrip(e, e2 *ApplicationException, b []byte) (int, error) {
+	n := e.FastWrite(b)
+	return e2.FastRead(b[:n])
+}
